@@ -218,6 +218,13 @@ structure Faults where
 inductive Err | cache | storage | unknownHash | corruptChain | unknownLayout | encode
 deriving Repr, DecidableEq
 
+instance : DecidableEq (Except Err Bytes) := fun a b =>
+  match a, b with
+  | .ok x, .ok y => if h : x = y then isTrue (h ▸ rfl) else isFalse (fun e => by cases e; exact h rfl)
+  | .error x, .error y => if h : x = y then isTrue (h ▸ rfl) else isFalse (fun e => by cases e; exact h rfl)
+  | .ok _, .error _ => isFalse (fun e => by cases e)
+  | .error _, .ok _ => isFalse (fun e => by cases e)
+
 /-- `getByHash`: cache first, then storage. -/
 def getByHash (s : State) (f : Faults) (h : Bytes) : Except Err Bytes :=
   if f.cacheGet then .error .cache else
